@@ -209,8 +209,8 @@ impl Rectangle {
     ///
     /// Panics if .
     pub fn from_coords(x1: i32, y1: i32, x2: i32, y2: i32) -> Self {
-        assert!(x1 <= x2);
-        assert!(y1 <= y2);
+        let (x1, x2) = (min(x1, x2), x1.max(x2));
+        let (y1, y2) = (min(y1, y2), y1.max(y2));
         Rectangle {
             start: Position::new(x1, y1),
             size: Size::new(x2 - x1, y2 - y1),
